@@ -273,10 +273,30 @@ def build_and_export(case):
     return res
 
 
+def pair_family(w):
+    """Exhaustive: Concat(s[i], s[j]) and s[i][j] for every pair of non-empty indices of a w-bit signal
+    (ints, and ranges with bounds in {None, 0..w} and steps {None, -1, 2, -2})."""
+    idxs = [{"i": i} for i in range(w)]
+    bounds = [None] + list(range(0, w + 1))
+    for s_, e_, st in itertools.product(bounds, bounds, [None, -1, 2, -2]):
+        if py_select(w, slice(s_, e_, st)):
+            idxs.append({"s": s_, "e": e_, "st": st})
+    leaf = {"k": "leaf", "kind": "sig", "n": "a", "w": w}
+    widths = {"a": w, "b": 1, "i0.q": 1, "bb.s": 1}
+    for i, j in itertools.product(idxs, idxs):
+        t = {"k": "concat", "ps": [{"k": "slice", "p": leaf, "i": i}, {"k": "slice", "p": leaf, "i": j}]}
+        yield {"tree": t, "widths": widths, "sinkw": len(py_bits(t))}
+        t2 = {"k": "slice", "p": {"k": "slice", "p": leaf, "i": i}, "i": j}
+        b2 = py_bits(t2)
+        if b2:
+            yield {"tree": t2, "widths": widths, "sinkw": len(b2)}
+
+
 def stream_b(ctx):
     rep, rng = ctx.rep, ctx.rng
     n = 400 if ctx.quick else 6000
-    cases = []
+    cases = list(pair_family(3)) + ([] if ctx.quick else list(pair_family(4)))
+    rep.extra["pair_family"] = len(cases)
     for k in range(n):
         widths = {"a": rng.randint(1, 5), "b": rng.randint(1, 4), "i0.q": rng.randint(1, 4), "bb.s": rng.randint(1, 4)}
         t = rand_tree(rng, rng.choice([1, 2, 2, 3, 3]), widths)
